@@ -89,6 +89,15 @@ def check_channel_paths(rec, ex, tf_eager, tf_lazy, raw_ts, max_index=40):
             ok, got = rec.guard('access:lazy[i]', lambda: [ch[i] for i in idxs])
             if ok:
                 _viol(rec, 'agree:lazy[i]', compare_scalars(t, vals, got, idxs, 'lazy[i] %s' % p, raw_ts))
+            # the same indices from the end of the channel backwards, and addressed from the end
+            back = list(reversed(idxs))
+            ok, got = rec.guard('access:lazy[i] descending', lambda: [ch[i] for i in back])
+            if ok:
+                _viol(rec, 'agree:lazy[i] descending', compare_scalars(t, vals, got, back, 'lazy[i] descending %s' % p, raw_ts))
+            if n:
+                ok, got = rec.guard('access:lazy[-i]', lambda: [ch[i - n] for i in idxs])
+                if ok:
+                    _viol(rec, 'agree:lazy[-i]', compare_scalars(t, vals, got, idxs, 'lazy[i-len] %s' % p, raw_ts))
             # channel-level chunk stream
 
             def chan_chunks():
@@ -393,6 +402,11 @@ def sensor_scaled_cases():
     return fn
 
 
+@st.composite
+def twin_cases(draw):
+    return {'fs': draw(S.twin_long_file()), 'memmap': False, 'raw_ts': True, 'as_path': False}
+
+
 def _scaled_cases():
     from props.C13 import cases as c13_cases
     return c13_cases(noop=True)
@@ -401,11 +415,13 @@ def _scaled_cases():
 def jobs(tier):
     if tier == 'quick':
         return [Job('files', 'hyp', lambda: cases(max_segments=5), n=2500),
+                Job('long_files_shared_offset_prefix', 'hyp', twin_cases, n=48),
                 Job('daqmx_files', 'hyp', daqmx_cases, n=800, check=check_daqmx),
                 Job('scaled_channels', 'hyp', _scaled_cases, n=800, check=check_scaled),
                 Job('every_scale_type', 'enum', sensor_scaled_cases(), exhaustive=True, check=check_scaled,
                     note='every scale type of the C14 matrix x 3 raw types: all access paths against the eager full read')]
     return [Job('files', 'hyp', lambda: cases(max_segments=6), n=100000),
+            Job('long_files_shared_offset_prefix', 'hyp', twin_cases, n=1500),
             Job('bigger', 'hyp', lambda: cases(max_segments=8, max_n=60, max_chunks=4), n=20000),
             Job('daqmx_files', 'hyp', daqmx_cases, n=30000, check=check_daqmx),
             Job('scaled_channels', 'hyp', _scaled_cases, n=30000, check=check_scaled),
